@@ -1,5 +1,7 @@
 """C11 -- CIE Lab and CIEDE2000 agree with the CIE definitions."""
 import math
+import os
+import traceback
 from fractions import Fraction
 
 import z3
@@ -32,6 +34,28 @@ META = dict(
     trusted=["z3 (nlsat for the radicand obligation)", "vf/ref.py CIE reference, validated against Sharma-Wu-Dalal Table 1 (34 pairs) on every run"],
     assumptions=["doubles as reals"],
 )
+
+
+def _is_zero(t):
+    return (z3.is_rational_value(t) or z3.is_int_value(t)) and symx.z3_to_frac(t) == 0
+
+
+def _negative_term(lit):
+    """t for a literal that says t < 0 in one of the shapes z3.simplify leaves it in: t < 0, 0 > t, Not(0 <= t), Not(t >= 0)"""
+    if not z3.is_app(lit):
+        return None
+    k = lit.decl().kind()
+    if k == z3.Z3_OP_LT and _is_zero(lit.arg(1)):
+        return lit.arg(0)
+    if k == z3.Z3_OP_GT and _is_zero(lit.arg(0)):
+        return lit.arg(1)
+    if k == z3.Z3_OP_NOT and z3.is_app(lit.arg(0)):
+        a = lit.arg(0)
+        if a.decl().kind() == z3.Z3_OP_LE and _is_zero(a.arg(0)):
+            return a.arg(1)
+        if a.decl().kind() == z3.Z3_OP_GE and _is_zero(a.arg(1)):
+            return a.arg(0)
+    return None
 
 
 def jobs(tier):
@@ -114,9 +138,9 @@ def run_job(job):
         the plain obligation when the term does not have that shape."""
         try:
             lit = pr.pc[-1]
-            if not (z3.is_app(lit) and lit.decl().kind() == z3.Z3_OP_LT):
+            rad = _negative_term(lit)
+            if rad is None:
                 return None
-            rad = lit.arg(0)
             if not (z3.is_app(rad) and rad.decl().kind() == z3.Z3_OP_ADD):
                 return None
             squares, rest = [], []
@@ -129,25 +153,38 @@ def run_job(job):
             if len(squares) != 3 or len(rest) != 1:
                 return None
             sq_ids = {x.get_id() for x in squares}
-            factors = []
-            stack = [rest[0]]
+            # the fourth summand is RT * tC * tH; z3.simplify has flattened it (and pulled the numeric coefficient out), so:
+            # flatten the product, take one occurrence of two different squared terms out, what is left multiplies up to RT
+            factors, stack = [], [rest[0]]
             while stack:
                 t = stack.pop()
-                if z3.is_app(t) and t.decl().kind() == z3.Z3_OP_MUL:
+                if z3.is_app(t) and t.decl().kind() == z3.Z3_OP_MUL and t.get_id() not in sq_ids:
                     stack.extend(t.children())
                 else:
                     factors.append(t)
-            others = [f for f in factors if f.get_id() not in sq_ids]
-            inner = [f for f in factors if f.get_id() in sq_ids]
-            if len(others) != 1 or len(inner) != 2:
+            inner, others = [], []
+            for f in factors:
+                if f.get_id() in sq_ids and f.get_id() not in [x.get_id() for x in inner]:
+                    inner.append(f)
+                else:
+                    others.append(f)
+            if len(inner) != 2 or not others or len(others) > 8:
                 return None
             RT = others[0]
+            for f in others[1:]:
+                RT = RT * f
             lemma = z3.And(RT > -2, RT < 2)
             name = "never raises (ValueError: final radicand)"
-            abstract = [(x, "q%d" % i) for i, x in enumerate(squares)] + [(RT, "rt")]
+            atoms = [f for f in others if not (z3.is_rational_value(f) or z3.is_int_value(f))]
+            abstract = [(x, "q%d" % i) for i, x in enumerate(squares)] + [(x, "f%d" % i) for i, x in enumerate(atoms)]
+            # second step: only the literal that entered the raising branch and the lemma, with the three squared terms and the
+            # factors of RT replaced by fresh reals: q0^2 + q1^2 + q2^2 + RT*qi*qj < 0 and -2 < RT < 2 has no real solution
             return [("rotation term RT lies in (-2, 2)", lemma, {}),
-                    (name, z3.BoolVal(False), {"abstract": abstract, "lemmas": [lemma], "requires": ["rotation term RT lies in (-2, 2)"]})]
+                    (name, z3.BoolVal(False), {"abstract": abstract, "lemmas": [lemma], "keep": [lit],
+                                               "requires": ["rotation term RT lies in (-2, 2)"]})]
         except Exception:
+            if os.environ.get("VERIF_TRACE"):
+                traceback.print_exc()
             return None
 
     def on_path(pr):
